@@ -8,6 +8,6 @@ git diff -- src > $SR/$ID/patch.check.diff
 if ! diff -q $SR/$ID/patch.check.diff $SR/$ID/patch.diff >/dev/null; then echo "NOTE: worktree diff differs from patch.diff"; fi
 echo "== suite with change"; cargo test --workspace --no-fail-fast --offline 2>&1 | grep -E "^test result|^test .* FAILED" | grep -v seed_demo | head -8
 echo "== demo with change (must fail)"; cargo test --offline $FEAT --test seed_demo 2>&1 | grep -E "^test result|^test .*(FAILED|ok)$" | head -6
-git stash -q -- src
+git apply -R $SR/$ID/patch.check.diff   # (not git stash: worktrees of one repository share the stash stack)
 echo "== demo without change (must pass)"; cargo test --offline $FEAT --test seed_demo 2>&1 | grep -E "^test result|^test .*(FAILED|ok)$" | head -6
-git stash pop -q
+git apply $SR/$ID/patch.check.diff
